@@ -80,8 +80,8 @@ def Vec.abs (v : Vec) : List Id := idsOf (v.slots.take v.len)
 def Vec.total (v : Vec) : List Id := idsOf v.slots ++ v.dropLog ++ v.escaped
 
 /-- `n` slots initialised with the given ids / `k` holes -/
-abbrev I (l : List Id) : List Slot := l.map Slot.init
-abbrev H (k : Nat) : List Slot := List.replicate k Slot.hole
+def I (l : List Id) : List Slot := l.map Slot.init
+def H (k : Nat) : List Slot := List.replicate k Slot.hole
 
 /-- a vector holding `xs` with `spare` unused slots -/
 def Vec.mk' (xs : List Id) (spare : Nat) : Vec := { slots := I xs ++ H spare, len := xs.length }
